@@ -17,7 +17,7 @@ MOD_HEAD = ('use super::*;\nuse crate::std;\nuse crate::filetime;\nuse crate::li
 WORLD_CALLEES = [
     'std :: fs :: remove_file', 'std :: fs :: symlink_metadata', 'std :: fs :: metadata', 'std :: fs :: set_permissions',
     'std :: fs :: rename', 'std :: fs :: hard_link', 'std :: fs :: create_dir_all', 'std :: fs :: create_dir', 'std :: fs :: remove_dir', 'std :: fs :: remove_dir_all', 'std :: fs :: copy', 'std :: fs :: read_dir', 'std :: fs :: File :: open',
-    'File :: open', '. metadata', 'filetime :: set_file_times', 'filetime :: set_file_atime', 'filetime :: set_file_handle_times',
+    'File :: open', 'std :: fs :: File :: create', 'File :: create', '. open', '. metadata', 'filetime :: set_file_times', 'filetime :: set_file_atime', 'filetime :: set_file_handle_times',
     'FileTime :: now', 'std :: time :: SystemTime :: now', 'SystemTime :: now',
     'move_to_back_of_list', 'set_read_only', 'ensure_file_removed', 'ensure_file_touched', 'raw_cache :: ensure_file_touched',
     'collect_cached_files', 'apply_update', 'raw_cache :: prune', 'prune', 'ensure_directory', 'cleanup_temporary_directory',
@@ -1378,6 +1378,12 @@ pub open spec fn write_frame(old: World, fin: World, base: PathV, name: Seq<u8>,
                  ('C02:debris-older-than-the-age-limit-is-removed-when-no-call-fails',
                   'r.is_ok() && final(w).hard_faults == old(w).hard_faults && old(w).dirs.contains(self.spec_base()) && old(w).dirs.contains(self.spec_temp()) && final(w).now >= temp_age_ns() '
                   '==> no_stale_temp(*final(w), self.spec_temp(), final(w).now)'),
+('C07 C11:the-second-chance-plan-for-the-configured-capacity-is-applied-and-then-only-stale-temporary-files-go',
+                  'r.is_ok() && final(w).hard_faults == old(w).hard_faults && old(w).dirs.contains(self.spec_base()) ==> '
+                  'exists|m: World, recs: Seq<raw_cache::CachedFile>, ev: Seq<raw_cache::CachedFile>, mb: Seq<raw_cache::CachedFile>| '
+                  '#[trigger] raw_cache::prune_exact(*old(w), m, self.spec_base(), self.spec_capacity() as nat, recs, ev, mb) '
+                  '&& ev.len() == (if recs.len() <= self.spec_capacity() { 0 } else { recs.len() - self.spec_capacity() }) '
+                  '&& temp_frame(m, *final(w), self.spec_temp(), final(w).now)'),
                  ('C06:linear-in-the-number-of-directory-entries', 'final(w).steps <= old(w).steps + 2 * (4 + 3 * (final(w).listed - old(w).listed)) && final(w).opens <= old(w).opens + 2'),
                  ('C05 C18:error-is-a-real-fault', 'r.is_err() ==> final(w).hard_faults > old(w).hard_faults')])
     dc.insert_before('self . cleanup_temp_directory ( ) ? ;',
@@ -1415,6 +1421,12 @@ pub open spec fn write_frame(old: World, fin: World, base: PathV, name: Seq<u8>,
                  ('C02:debris-older-than-the-age-limit-is-removed-when-no-call-fails',
                   'r.is_ok() && final(w).hard_faults == old(w).hard_faults && old(w).dirs.contains(self.spec_base()) && old(w).dirs.contains(self.spec_temp()) && final(w).now >= temp_age_ns() '
                   '==> no_stale_temp(*final(w), self.spec_temp(), final(w).now)'),
+('C07 C11:the-second-chance-plan-for-the-configured-capacity-is-applied-and-then-only-stale-temporary-files-go',
+                  'r.is_ok() && final(w).hard_faults == old(w).hard_faults && old(w).dirs.contains(self.spec_base()) ==> '
+                  'exists|m: World, recs: Seq<raw_cache::CachedFile>, ev: Seq<raw_cache::CachedFile>, mb: Seq<raw_cache::CachedFile>| '
+                  '#[trigger] raw_cache::prune_exact(*old(w), m, self.spec_base(), self.spec_capacity() as nat, recs, ev, mb) '
+                  '&& ev.len() == (if recs.len() <= self.spec_capacity() { 0 } else { recs.len() - self.spec_capacity() }) '
+                  '&& temp_frame(m, *final(w), self.spec_temp(), final(w).now)'),
                  ('C06:linear-in-the-number-of-directory-entries', 'final(w).steps <= old(w).steps + 2 * (4 + 3 * (final(w).listed - old(w).listed)) && final(w).opens <= old(w).opens + 2'),
                  ('C05 C18:error-is-a-real-fault', 'r.is_err() ==> final(w).hard_faults > old(w).hard_faults')])
 
@@ -1449,7 +1461,7 @@ pub open spec fn write_frame(old: World, fin: World, base: PathV, name: Seq<u8>,
                 ('C18 C11:success-means-the-key-is-bound-and-the-source-consumed',
                  'r.is_ok() ==> old(w).files.contains_key(pv(value)) && !final(w).files.contains_key(pv(value)) && final(w).files.contains_key(%s)' % DST
                  + (' && final(w).files[%s] == old(w).files[pv(value)]' % DST if opname == 'set' else '')),
-                ('C13 C11:success-means-a-publication-happened' + ('' if opname == 'set' else '-unless-the-key-was-already-bound'),
+                ('C13 C11 C18:success-means-a-publication-happened' + ('' if opname == 'set' else '-unless-the-key-was-already-bound'),
                  'r.is_ok() ==> final(w).published > old(w).published' + ('' if opname == 'set' else ' || old(w).files.contains_key(%s)' % DST)),
                 ('C18 C05:without-a-real-fault-a-failed-write-published-nothing', 'r.is_err() && final(w).hard_faults == old(w).hard_faults ==> final(w).published == old(w).published'),
                 ('C01 C03 C19:a-write-never-changes-the-bytes-of-any-file',
